@@ -126,6 +126,11 @@ func (*grpcHandler) SetTimeout(request *http.Request) (context.Context, context.
 		// absent one.
 		return nil, nil, errorf(CodeInvalidArgument, "gRPC protocol error: timeout is empty")
 	}
+	if len(request.Header.Values(grpcHeaderTimeout)) > 1 {
+		// Several field lines mean the same as one line with the values joined by
+		// commas, which is no timeout in the grammar: don't just take the first.
+		return nil, nil, errorf(CodeInvalidArgument, "gRPC protocol error: more than one timeout")
+	}
 	timeout, err := grpcParseTimeout(value)
 	if err != nil && !errors.Is(err, errNoTimeout) {
 		// Errors here indicate that the client sent an invalid timeout header, so
